@@ -264,3 +264,4 @@ macro_rules! k02p { ($name:ident, $nb:expr) => {
 k02p!(k02p_block_sequence_1, 1);
 k02p!(k02p_block_sequence_2, 2);
 k02p!(k02p_block_sequence_3, 3);
+k02p!(k02p_block_sequence_4, 4);
